@@ -402,7 +402,7 @@ func check(c Case) engine.Outcome {
 			}
 		default:
 			best := map[string]float64{}
-		anyNaN := false
+			anyNaN := false
 			for _, a := range c.Assets {
 				rows, err := parseRows(filepath.Join(dir, a.Name+".html"))
 				if err != nil {
